@@ -24,6 +24,7 @@ struct Tally {
     failed_save_checks: u64,
     histories: u64,
     stress_rounds: u64,
+    late_faults: u64,
 }
 fn flush(t: &Tally, out: &mut Out) {
     out.count("evaluations", t.histories);
@@ -37,6 +38,7 @@ fn flush(t: &Tally, out: &mut Out) {
     out.count("readable_documents_exercised", t.readable_docs);
     out.count("failed_save_keeps_earlier_entries_checked", t.failed_save_checks);
     out.count("concurrent_stress_rounds", t.stress_rounds);
+    out.count("faults.documents_appearing_under_a_running_context", t.late_faults);
 }
 
 /// Which of the two user files a document is installed as.
@@ -235,6 +237,74 @@ fn battery(root: &Path, label: &str, case: &dyn Fn() -> Value, out: &mut Out, t:
     Some(probes)
 }
 
+/// The fault appears while a context is already running: start over absent files, install the document (later mtime),
+/// re-load the configuration, then type the probes and commit. Returns the probe renderings made after the re-load.
+fn battery_late(root: &Path, which: Which, bytes: &[u8], label: &str, case: &dyn Fn() -> Value, out: &mut Out, t: &mut Tally) -> Option<Vec<String>> {
+    t.histories += 1;
+    fresh_root(root);
+    let fail = |what: &str, p: &Panic, out: &mut Out| {
+        out.violation("keeps-working", format!("c10:panic@{}:{}", p.loc, what), case(), format!("{what} keeps working when the user files change to this state under a running context: {label}"), format!("panic at {}: {}", p.loc, p.msg));
+    };
+    let spec = CfgSpec::new(Lay::Phonetic, O_PSUGG | O_ENG);
+    t.calls += 1;
+    let mut sess = match Sess::new(spec, root) {
+        Ok(s) => s,
+        Err(p) => {
+            fail("creating a context", &p, out);
+            return None;
+        }
+    };
+    // warm the memo with the words that the document may mention
+    for w in ["ami", "a", "as"] {
+        t.calls += w.len() as u64 + 1;
+        if let Err(p) = sess.type_text_protocol(w).and_then(|_| sess.finish()) {
+            fail("typing", &p, out);
+            return None;
+        }
+    }
+    std::fs::write(which.path(root), bytes).unwrap();
+    if let Ok(f) = std::fs::File::options().write(true).open(which.path(root)) {
+        let _ = f.set_modified(std::time::SystemTime::now() + std::time::Duration::from_secs(5));
+    }
+    t.calls += 1;
+    if let Err(p) = sess.update(spec) {
+        fail("update_engine after the file changed", &p, out);
+        return None;
+    }
+    let mut probes = vec![];
+    for w in ["a", "ai", "ae", "agulo", "ami", "amie", "amike", "amigulo", "as", "ase", ":e", "k", "word7", "word7e", "e"] {
+        t.calls += w.len() as u64 + 1;
+        match sess.type_text_protocol(w) {
+            Ok(Some(s)) => probes.push(format!("{w}={}", Rs::of(&s).to_json())),
+            Ok(None) => {}
+            Err(p) => {
+                fail("typing after the re-load", &p, out);
+                return None;
+            }
+        }
+        if let Err(p) = sess.finish() {
+            fail("finish", &p, out);
+            return None;
+        }
+    }
+    t.calls += 6;
+    match sess.type_text_protocol("tumi") {
+        Ok(Some(s)) => {
+            let n = if s.is_lonely() { 1 } else { s.len() };
+            if let Err(p) = sess.commit(1.min(n - 1)) {
+                fail("committing after the re-load", &p, out);
+                return None;
+            }
+        }
+        Ok(None) => {}
+        Err(p) => {
+            fail("typing after the re-load", &p, out);
+            return None;
+        }
+    }
+    Some(probes)
+}
+
 fn install_doc(root: &Path, which: Which, bytes: &[u8]) {
     fresh_root(root);
     std::fs::write(which.path(root), bytes).unwrap();
@@ -288,7 +358,7 @@ impl Prop for C10 {
     }
     fn rule(&self) -> String {
         "faults: (a) every byte prefix 0..len of learned-selection stores the engine itself wrote in this run (25 stores quick, 200 thorough) and of a user auto-correct file; \
-         (b) a corpus of 32 documents installed as either file: wrong shapes, empty file, BOM, invalid UTF-8, NUL bytes, deep nesting, trailing garbage, duplicate keys, empty-string keys and values, a 5 MB object; \
+         (b) a corpus of 32 documents installed as either file, before the context is created and again under a running context followed by update_engine: wrong shapes, empty file, BOM, invalid UTF-8, NUL bytes, deep nesting, trailing garbage, duplicate keys, empty-string keys and values, a 5 MB object; \
          (c) directory states: user directory missing, user directory is a regular file, store path is a directory, auto-correct path is a directory, dangling symlinks; failed saves: file-size limit 0 / 10 / 40 bytes (RLIMIT_FSIZE), user directory removed or replaced by a file, the save's temporary path linked to /dev/full (ENOSPC); \
          (d, thorough) three processes committing into / constructing over one directory. Each fault is followed by a fixed battery: construct, 16 probe typings (words of the files and their suffix forms), 4 learning commits, re-typing, \
          update_engine x3, restart, suggestions-off and fixed-layout contexts. Unreadable content must give the probe renderings of an absent file; after a failed save the earlier entries must still be pre-selected by a new context. \
@@ -311,7 +381,7 @@ impl Prop for C10 {
     fn minima(&self, _tier: Tier) -> Vec<(&'static str, u64)> {
         vec![
             ("faults.byte_prefixes_of_engine_written_files", 300), ("faults.corpus_documents", 60), ("faults.directory_states", 4), ("faults.failed_saves", 5),
-            ("unreadable_content_compared_with_absent_file", 300), ("readable_documents_exercised", 10), ("failed_save_keeps_earlier_entries_checked", 5),
+            ("unreadable_content_compared_with_absent_file", 300), ("readable_documents_exercised", 10), ("failed_save_keeps_earlier_entries_checked", 5), ("faults.documents_appearing_under_a_running_context", 60),
         ]
     }
     fn run_shard(&self, env: &Env, out: &mut Out) {
@@ -323,6 +393,10 @@ impl Prop for C10 {
         // reference renderings: both files absent
         fresh_root(&root);
         let Some(absent) = battery(&root, "absent", &|| json!({"fault": "none (both files absent)"}), out, &mut t) else {
+            flush(&t, out);
+            return;
+        };
+        let Some(absent_late) = battery_late(&root, Which::AutoCorrect, b"{}", "empty object", &|| json!({"fault": "none (empty auto-correct object installed late)"}), out, &mut t) else {
             flush(&t, out);
             return;
         };
@@ -385,6 +459,15 @@ impl Prop for C10 {
                         }
                     } else {
                         t.readable_docs += 1;
+                    }
+                }
+                // the same document appearing under a running context, picked up by update_engine
+                t.late_faults += 1;
+                let late_case = || { let mut c = case(); c["installed"] = json!("after the context was created, before update_engine"); c };
+                if let Some(p) = battery_late(&root, which, bytes, &label, &late_case, out, &mut t) {
+                    if which == Which::AutoCorrect && readable(bytes).is_none() && p != absent_late {
+                        let k = p.iter().zip(&absent_late).position(|(a, b)| a != b).unwrap_or(0);
+                        out.violation("unreadable-is-absent", format!("c10:unreadable-differs-after-reload:{name}"), late_case(), format!("same results as with an empty list, e.g. {}", absent_late[k]), p[k].clone());
                     }
                 }
                 if out.want_sample() && item % 13 == 1 {
